@@ -143,6 +143,12 @@ Definition violations (g : graph) (c : cfg) (imp : bool) (subjs objs : list filt
 
 Definition opt_list {X} (o : option (list X)) : list X := match o with Some l => l | None => [] end.
 
+(* _assert_modules_removed_for_alias_exist (fix D23): a name dropped by the alias rewrite because its parent
+   is listed too must still be a module of the graph *)
+Definition removed_unknown (g : graph) (fs : list ufilt) : bool :=
+  existsb (fun f => has_listed_ancestor fs f &&
+                    match uname f with Some n => negb (memb n (nodes g)) | None => false end) fs.
+
 (* Rule.assert_applies: returns the configuration the rule object is left with, and the outcome.
    The alias is rewritten for the evaluation only: the rule object keeps the configuration it was given. *)
 Definition assert_applies (g : graph) (c0 : cfg) : cfg * outcome :=
@@ -150,6 +156,7 @@ Definition assert_applies (g : graph) (c0 : cfg) : cfg * outcome :=
   let c := convert_aliases c0 in
   if negb (required_present c) then (c0, Err EConfig) else
   if negb (behavior_consistent c) then (c0, Err EInconsistent) else
+  if c_any c0 && removed_unknown g (opt_list (c_subj c0)) then (c0, Err ENoMatch) else
   let imp := match c_imp c with Some b => b | None => true end in
   (c0,
    match convert g (opt_list (c_subj c)) with
